@@ -45,17 +45,18 @@ void evt(const char* name, const void* obj, long a, long b) {
     if (!gTrace) return;
     long n = ++gSeq;
     int t = threadId();
+    long long vt = verif::clockHook ? verif::clockHook() : -1;
     if (strcmp(name, "Cmd") == 0) {
         std::string txt((const char*)obj, (size_t)b);
         std::string esc;
         for (char c : txt) { if (c == '"' || c == '\\') esc += '\\'; if ((unsigned char)c >= 0x20) esc += c; }
-        fprintf(gTrace, "{\"n\":%ld,\"t\":%d,\"e\":\"Cmd\",\"o\":-1,\"a\":%ld,\"b\":0,\"txt\":\"%s\"}\n", n, t, a, esc.c_str());
+        fprintf(gTrace, "{\"n\":%ld,\"t\":%d,\"vt\":%lld,\"e\":\"Cmd\",\"o\":-1,\"a\":%ld,\"b\":0,\"txt\":\"%s\"}\n", n, t, vt, a, esc.c_str());
     } else if (strcmp(name, "RegWorker") == 0) {
         int o = objId(obj);
         int par = objId((const void*)(size_t)b);
-        fprintf(gTrace, "{\"n\":%ld,\"t\":%d,\"e\":\"%s\",\"o\":%d,\"a\":%ld,\"b\":%d}\n", n, t, name, o, a, par);
+        fprintf(gTrace, "{\"n\":%ld,\"t\":%d,\"vt\":%lld,\"e\":\"%s\",\"o\":%d,\"a\":%ld,\"b\":%d}\n", n, t, vt, name, o, a, par);
     } else {
-        fprintf(gTrace, "{\"n\":%ld,\"t\":%d,\"e\":\"%s\",\"o\":%d,\"a\":%ld,\"b\":%ld}\n", n, t, name, objId(obj), a, b);
+        fprintf(gTrace, "{\"n\":%ld,\"t\":%d,\"vt\":%lld,\"e\":\"%s\",\"o\":%d,\"a\":%ld,\"b\":%ld}\n", n, t, vt, name, objId(obj), a, b);
     }
     fflush(gTrace);
 }
